@@ -26,7 +26,7 @@ import (
 var ghostConnKeys = []struct {
 	key, sort string
 }{
-	{"Gh|closed", "Bool"}, {"Gh|notified", "Bool"}, {"Gh|ncode", "(_ BitVec 8)"}, {"Gh|nsub", "(_ BitVec 8)"}, {"Gh|nbc", "Bool"}, {"Gh|nwrites", "(_ BitVec 64)"},
+	{"Gh|chclosed", "Bool"}, {"Gh|closed", "Bool"}, {"Gh|notified", "Bool"}, {"Gh|ncode", "(_ BitVec 8)"}, {"Gh|nsub", "(_ BitVec 8)"}, {"Gh|nbc", "Bool"}, {"Gh|nwrites", "(_ BitVec 64)"},
 }
 
 func (vc *VC) ghostKey(key string) string {
@@ -111,6 +111,9 @@ func (fr *Frame) ghostPredicate(name string, args []Val, st *State) (*Val, bool)
 	switch name {
 	case "verif_closed":
 		return &Val{T: types.Typ[types.Bool], S: get("Gh|closed")}, true
+	case "verif_chclosed":
+		// the channel has been closed (channel values are references)
+		return &Val{T: types.Typ[types.Bool], S: vc.readCell(st, vc.ghostKey("Gh|chclosed"), args[0].S)}, true
 	case "verif_notified":
 		return &Val{T: types.Typ[types.Bool], S: get("Gh|notified")}, true
 	case "verif_notified_open":
@@ -128,6 +131,7 @@ func (fr *Frame) ghostPredicate(name string, args []Val, st *State) (*Val, bool)
 const ghostPrelude = `
 // Ghost predicates on connections (no run-time observer; see govc/ghost.go).
 func verif_closed(c any) bool        { return false }
+func verif_chclosed[T any](c chan T) bool { return false }
 func verif_notified(c any) bool      { return false }
 func verif_notified_open(c any) bool { return false }
 func verif_notif_code(c any) uint8   { return 0 }
